@@ -17,7 +17,7 @@ def run(res, only=None):
     # the start is j/8 of the total), rotate_towards beyond the remaining angle (ends on the target, finite), angles between parallel vectors
     core.record_and_validate(res, "rel", [c for c in cfgs if c in ("sse2", "scalar", "coresimd", "libm", "fma")], draws=3 if res.tier == "quick" else 60,
                              module="Trace_Rel", chunks=3 if res.tier == "quick" else 8, expect_kinds=("rel",),
-                             ops=["move_towards", "slerp8", "vslerp8", "rot_reach", "rot_len", "angle_parallel", "clamp_len", "ortho", "arc"])
+                             ops=["move_towards", "slerp8", "slerp_int", "vslerp8", "rot_reach", "rot_len", "angle_parallel", "clamp_len", "ortho", "arc"])
     res.rule = ("exact (Ieee): vector lerp/midpoint and FloatExt lerp/inverse_lerp/remap over 12x12 dyadic operands (incl. MAX, subnormal, 2^100) "
                 "x s in {0,1/4,1/2,3/4,1,-1/2,2} (end points exact); exact rotations: Quat/DQuat slerp, lerp, rotate_towards between all pairs "
                 "of rotations by multiples of 90 degrees about each axis (q vs -q, shorter arc; half-turn-apart pairs only at their ends), "
